@@ -64,11 +64,16 @@ LOCAL_RULE = ("one evaluation = one seeded history over {register/unregister a m
 C03_RULE = ("one evaluation = one seeded fully CRC-protected bundle (CRC-16/32 chosen per block incl. the primary block, dtn/ipn endpoints, optional hop-count / age / previous-node / unknown blocks, "
             "fragment or not, payload 0..300 bytes, up to 2 KiB in the thorough tier) sent by the real serialiser over a simulated MTCP stream into the real server connection handler; EVERY single bit "
             "of its encoding is flipped in turn (exhaustive per bundle: scheduler_steps counts the flips) plus 200 seeded bursts of <=16/<=32 bits inside one block. Non-trivial = every run; distinct = distinct canonical log.")
-C04_RULE = ("two harnesses; one evaluation = one seeded well-formed stream from a simulated peer: (a) MTCP frames (1..2 bundles and a keep-alive) into the real server connection handler, (b) TCPCLv4 messages "
-            "(SESS_INIT, XFER_SEGMENT/ACK x1..3, KEEPALIVE, XFER_REFUSE, SESS_TERM) into the real message switch. Per stream: cut at EVERY byte offset; stall (stream stays open) after every length/count "
-            "field; every length/count field (MTCP prefix, every CBOR string/array/map header of the bundle, the TCPCL u16/u32/u64 length fields) set to each of 0,1,23,24,2^16,2^31-1,2^31,2^32-1,2^62,2^63,2^64-1 "
-            "(clamped to the field width), followed by the rest of the stream and EOF, and again followed by a stall; (c) 30% of the TCPCL runs: a TransferManager sends a bundle with each boundary value as the "
-            "peer-declared segment MRU. Non-trivial = every run; distinct = distinct canonical log.")
+C04_RULE = ("seven harnesses; one evaluation = one seeded well-formed message (stream) from a simulated peer or client, then the enumerated faults on it. STREAMS - (a) MTCP frames (1..2 bundles and a keep-alive) "
+            "into the real server connection handler, (b) TCPCLv4 contact header + messages (SESS_INIT, XFER_SEGMENT/ACK x1..3, KEEPALIVE, XFER_REFUSE, SESS_TERM) into the real message switch. Per stream: cut at EVERY "
+            "byte offset; stall (stream stays open) after every length/count field; every length/count field (MTCP prefix, every CBOR string/array/map header of the bundle, the TCPCL u16/u32/u64 length fields) set to each of "
+            "0,1,23,24,2^16,2^31-1,2^31,2^32-1,2^62,2^63,2^64-1 (clamped to the field width), followed by the rest of the stream and EOF, and again followed by a stall; (c) 30% of the TCPCL runs: a TransferManager "
+            "sends a bundle with each boundary value as the peer-declared segment MRU. WHOLE MESSAGES - cut at every offset, every CBOR length/count header set to each boundary value (rest kept, and again ending "
+            "right there): (d) discovery announcement datagrams, (e) bpv7: administrative records, the type-specific data of each of the 8 extension blocks inside a canonical block, a bundle carrying a status "
+            "report, endpoint-ID strings (every digit run -> boundary values, degenerate shapes, a 64 KiB authority), (f) WebSocket-agent messages of all 5 types (+ type code values), (g) REST /build /register "
+            "/unregister /fetch bodies through the real RestAgent + router: cut at every offset, every JSON node -> 30 alternatives (other types, boundary numbers, nested containers), every unused builder method "
+            "with each alternative, (h) BBC: each fragment of a train cut at every offset / identifier byte -> 8 flag combinations x 4 sequence numbers, the bundle's CBOR faults compressed and fragmented, the xz stream cut at every offset and "
+            "its declared dictionary size -> every value up to 64 MiB. Non-trivial = every run; distinct = distinct canonical log.")
 
 PROPS = {
     "C03": {"pkg": "pkg/cla/mtcp", "binary": "mtcp.test", "harness": "crc", "focus": "C03", "variants": [""],
@@ -79,16 +84,26 @@ PROPS = {
                                             "single-bit flips are exhaustive per generated bundle, bundles themselves are sampled"],
             "required_probes": ["bit_flip", "burst"]},
     "C04": {"parts": [
+                {"pkg": "pkg/cla/bbc", "binary": "bbc.test", "harness": "dec-bbc", "variants": [""]},
                 {"pkg": "pkg/cla/mtcp", "binary": "mtcp.test", "harness": "dec-mtcp", "variants": [""]},
-                {"pkg": "pkg/cla/tcpclv4/internal/utils", "binary": "tcpcl.test", "harness": "dec-tcpcl", "variants": [""]}],
-            "focus": "C04", "budget": {"quick": 40, "thorough": 600}, "level": "fault_enumeration", "rule": C04_RULE, "mem_limit_gb": 8,
-            "real": ["mtcp.MTCPServer.handleSender and the bpv7/cboring bundle decoder behind it", "tcpclv4 utils.MessageSwitchReaderWriter + msgs.ReadMessage and all message Unmarshal functions",
-                     "tcpclv4 utils.TransferManager.Send / OutgoingTransfer.NextSegment with peer-declared segment sizes"],
-            "stub": ["peers and sockets: simulated streams (durably blocking readers fed by the harness)",
-                     "NOT covered at all: BBC fragments/transmissions, discovery announcements, WebSocket-agent messages, REST build requests, endpoint-ID strings, TCPCL contact header/stages, coverage-guided mutation of arbitrary byte strings"],
+                {"pkg": "pkg/cla/tcpclv4/internal/utils", "binary": "tcpcl.test", "harness": "dec-tcpcl", "variants": [""]},
+                {"pkg": "pkg/bpv7", "binary": "bpv7.test", "harness": "dec-bpv7", "variants": [""]},
+                {"pkg": "pkg/agent", "binary": "agent.test", "harness": "dec-rest", "variants": [""]},
+                {"pkg": "pkg/agent", "binary": "agent.test", "harness": "dec-wam", "variants": [""]},
+                {"pkg": "pkg/discovery", "binary": "disc.test", "harness": "dec-disc", "variants": [""]}],
+            "focus": "C04", "budget": {"quick": 45, "thorough": 600}, "level": "fault_enumeration", "rule": C04_RULE, "mem_limit_gb": 8,
+            "real": ["mtcp.MTCPServer.handleSender and the bpv7/cboring bundle decoder behind it", "tcpclv4 utils.MessageSwitchReaderWriter + msgs.ReadMessage and all message Unmarshal functions (incl. the contact header)",
+                     "tcpclv4 utils.TransferManager.Send / OutgoingTransfer.NextSegment with peer-declared segment sizes", "discovery.UnmarshalAnnouncements",
+                     "bpv7: NewAdministrativeRecordFromCbor / StatusReport, CanonicalBlock + ExtensionBlockManager.ReadBlock for payload, previous node, bundle age, hop count, binary spray, DTLSR, PRoPHET and signature blocks, ParseBundle, NewEndpointID",
+                     "agent.unmarshalCbor and all WebSocket-agent message types; agent.RestAgent handlers behind gorilla/mux incl. bpv7.BuildFromMap",
+                     "bbc.ParseFragment, Connector.handleIncomingFragment, IncomingTransmission, xz decompression (github.com/ulikunitz/xz) and the bundle decoder behind it"],
+            "stub": ["peers, clients and sockets: simulated streams (durably blocking readers fed by the harness) or whole messages handed to the handler; HTTP through httptest recorders; the WebSocket framing (gorilla/websocket) is not driven",
+                     "NOT covered: TCPCL stage machines above the message switch, coverage-guided mutation of arbitrary byte strings (faults are structured: cuts, stalls, length/count fields, JSON node types)"],
             "assumptions": COMMON_ASSUME + ["allocation is measured with runtime.MemStats.TotalAlloc (process-wide): the bound is 4 MiB + 2 x bytes delivered and an excess must be measured twice; declared sizes up to 2^16 are below that resolution",
-                                            "worker processes run under RLIMIT_AS = 8 GiB so that a successful giant allocation cannot take the machine down; a dying worker is reported as a process-crash violation"],
-            "required_probes": ["stream_cut", "stream_stall", "field_corrupt", "hostile_segment_mru"]},
+                                            "worker processes run under RLIMIT_AS = 8 GiB so that a successful giant allocation cannot take the machine down; a dying worker is reported as a process-crash violation",
+                                            "'never loops for ever' for whole-message decoders is a 20 s real-time watchdog per decode (never fires on the unchanged tree; it does not influence a run that returns)",
+                                            "the xz dictionary-size field is only driven up to 64 MiB (of 4 GiB): the recorded finding makes larger values kill the worker"],
+            "required_probes": ["stream_cut", "stream_stall", "field_corrupt", "hostile_segment_mru", "datagram_cut", "kind_eid", "kind_admin", "kind_block", "kind_bundle", "family_frag", "family_cbor", "family_xz", "rest/build", "wam_type_2"]},
     "C07": {"pkg": "pkg/routing", "binary": "routing.test", "harness": "local", "focus": "C07", "variants": [""],
             "budget": {"quick": 60, "thorough": 1200}, "level": "exploration", "rule": LOCAL_RULE,
             "real": ["routing.Core local delivery path, AgentManager", "agent.MuxAgent", "agent.RestAgent behind its gorilla/mux router (recorder requests)", "agent.PingAgent", "storage.Store"],
@@ -146,11 +161,12 @@ MANIFEST_TEXT = {
                     "a simulated MTCP stream into the real receiver; acceptance is judged by an independent CRC-16/X-25 / CRC-32C computation over independently delimited blocks; the serialiser's own CRCs (and the "
                     "mandatory primary-block CRC) are checked the same way. Bundles are sampled, flips per bundle are complete.",
             "design_ref": "DESIGN.md §4 C03", "note": "trusted: the independent CBOR delimiter and bitwise CRCs in simk; only the MTCP receive path (not the TCPCL reassembly or the store's part files) carries the corrupted bytes", "technique": DST + " (fault enumeration per run)"},
-    "C04": {"text": "PARTIAL: only the decoders that sit behind a byte stream and only the stated stream-fault space. For MTCP framing + bundle decoding and for the TCPCLv4 message switch: truncation at every offset, "
-                    "a stall after every length/count field, and every length/count field set to each boundary value; plus hostile peer-declared segment MRUs on the sending side. Oracle: the decoding task returns or is "
-                    "durably blocked on the stream (synctest quiescence), nothing escapes as a panic / dead process, allocation stays within 4 MiB + 2 x delivered bytes. No coverage-guided fuzzing; BBC, discovery, "
-                    "WebSocket, REST and EID-string decoders are not covered.",
-            "design_ref": "DESIGN.md §4 C04", "note": "trusted: synctest quiescence as the 'blocked on the stream' observation, MemStats as allocation measure; large parts of the property's decoder list are outside this check", "technique": DST + " (fault enumeration per run)"},
+    "C04": {"text": "Fault enumeration on every decoder the statement lists, with structured faults only. Byte-stream decoders (MTCP framing + bundle, TCPCLv4 contact header and message switch): truncation at every offset, "
+                    "a stall after every length/count field, every length/count field set to each boundary value; hostile peer-declared segment MRUs on the sending side. Whole-message decoders (discovery announcements, "
+                    "administrative records, all extension blocks, bundles with a status report, endpoint-ID strings, WebSocket-agent messages, REST requests incl. build, BBC fragments / transmissions / xz): truncation at every "
+                    "offset, every CBOR length/count (or number / JSON node / fragment identifier / xz dictionary size) set to boundary or alternative values. Oracle: the decoding task returns or is durably blocked on the stream "
+                    "(synctest quiescence; 20 s watchdog for whole messages), nothing escapes as a panic / dead process, allocation stays within 4 MiB + 2 x delivered bytes. Not coverage-guided: arbitrary byte strings are not explored.",
+            "design_ref": "DESIGN.md §4 C04, §8.3", "note": "trusted: synctest quiescence as the 'blocked on the stream' observation, MemStats as allocation measure; messages are sampled, faults per message are enumerated; no coverage-guided mutation (outside this technique)", "technique": DST + " (fault enumeration per run)"},
     "C07": {"text": "Seeded register/unregister/deliver/fetch histories on the real Core + AgentManager + MuxAgent + RestAgent + PingAgent with mock agents and scripted peers; oracle from the registration set at each "
                     "delivery: every registered recipient of exactly that endpoint gets the bundle once (mock agents: hand-over count; REST clients: all fetches together return it exactly once), nobody else, "
                     "never a peer, one pong per ping, a 'delivered' report and release from the store only after a hand-over; the deliver-during-fetch interleaving is forced at hooks. WebSocket clients are not covered.",
